@@ -71,10 +71,35 @@ impl<L, R> Either<L, R> {
     }
 }
 
+/// The PEM reader does not notice a section that begins inside another one (an `END` line
+/// that got lost): it decodes the two bodies as a single object. Refuse such a file.
+fn check_pem_sections_closed(pem_data: &str) -> io::Result<()> {
+    let mut open = false;
+    for line in pem_data.lines() {
+        if line.starts_with("-----BEGIN ") {
+            if open {
+                return Err(io::Error::new(
+                    ErrorKind::InvalidInput,
+                    "A PEM section begins before the previous one has ended",
+                ));
+            }
+            open = true;
+        } else if line.starts_with("-----END ") {
+            open = false;
+        }
+    }
+    Ok(())
+}
+
+fn read_pem(reader: &mut impl Read, pem_data: &mut String) -> io::Result<()> {
+    reader.read_to_string(pem_data)?;
+    check_pem_sections_closed(pem_data)
+}
+
 pub fn load_certs(filename: &str) -> io::Result<Vec<Certificate>> {
     let mut reader = BufReader::new(File::open(filename)?);
     let mut pem_data = String::new();
-    reader.read_to_string(&mut pem_data).map_err(|e| {
+    read_pem(&mut reader, &mut pem_data).map_err(|e| {
         io::Error::new(
             ErrorKind::InvalidInput,
             format!("Failed to read file: {}", e),
@@ -104,7 +129,7 @@ pub fn load_certs(filename: &str) -> io::Result<Vec<Certificate>> {
 pub fn load_private_key(filename: &str) -> io::Result<PrivateKey> {
     let mut reader = BufReader::new(File::open(filename)?);
     let mut pem_data = String::new();
-    reader.read_to_string(&mut pem_data).map_err(|e| {
+    read_pem(&mut reader, &mut pem_data).map_err(|e| {
         io::Error::new(
             ErrorKind::InvalidInput,
             format!("Failed to read file: {}", e),
